@@ -174,9 +174,19 @@ def run(tier, seed):
             if endpoint == "queryParams" and client.startswith("macro"):
                 a2 = {kk: vv for kk, vv in a2.items() if kk in TWIN_QUERY}
                 a2["ql"] = [x for x in a2["ql"] if not isinstance(x, str)]
-            docs.append(json.dumps({"id": cid, "endpoint": endpoint, "args": a2, "ret": ret, "client": client, "server": server,
-                                    "smile": smile, "chunk": 1 + k % 4}))
+            doc = {"id": cid, "endpoint": endpoint, "args": a2, "ret": ret, "client": client, "server": server, "smile": smile, "chunk": 1 + k % 4}
+            docs.append(json.dumps(doc))
             meta[cid] = (endpoint, a2, ret, m, client, server, smile)
+            if endpoint == "binaryBody":
+                # streaming request bodies: a transport that loses the first attempt and retries (reset + write again), with the
+                # harness's own body writer and - blocking clients - the stock `&[u8]` writer
+                for extra in ({"retry": True}, {"slice_body": True}, {"retry": True, "slice_body": True}):
+                    if extra.get("slice_body") and client != "gen-blocking":
+                        continue
+                    cid = "c%d" % k
+                    k += 1
+                    docs.append(json.dumps(dict(doc, id=cid, **extra)))
+                    meta[cid] = (endpoint, a2, ret, m, client, server, smile)
     replayed = 0
     nontrivial = set()
     samples = []
